@@ -27,6 +27,8 @@ def _frac(q):
 
 import functools
 
+COMPOSITE_ATOMS = set()     # integers kept as ln atoms although they are not prime (see _prime_factors_raw)
+
 
 @functools.lru_cache(maxsize=4096)
 def _prime_factors_cached(n):
@@ -49,12 +51,22 @@ def _prime_factors_raw(n):
         if n < 10 ** 8:
             out[n] = out.get(n, 0) + 1          # no factor below 10^4 and n < 10^8: prime
         else:
-            # ln / sqrt atoms of integers are independent only if they are primes: factor completely
-            if n.bit_length() > 400:
-                raise Unsupported("ln/sqrt of an integer too large to factor")
-            from sympy import factorint
-            for p, m in factorint(n).items():
-                out[int(p)] = out.get(int(p), 0) + int(m)
+            # ln / sqrt atoms of integers are independent only if they are primes: factor as far as is cheap.  A composite
+            # cofactor that is too large to split is kept and recorded in COMPOSITE_ATOMS: the VC then decides the
+            # constant-coefficient ln part EXACTLY as a product of integer powers (no independence needed) and refuses
+            # any other use of such an atom.
+            from sympy import factorint, isprime
+            if isprime(n):
+                out[n] = out.get(n, 0) + 1
+            elif n.bit_length() <= 120:
+                for p, m in factorint(n).items():
+                    out[int(p)] = out.get(int(p), 0) + int(m)
+            else:
+                for p, m in factorint(n, limit=200000).items():
+                    p = int(p)
+                    out[p] = out.get(p, 0) + int(m)
+                    if p >= 10 ** 8 and not isprime(p):
+                        COMPOSITE_ATOMS.add(p)
     return out
 
 
@@ -521,7 +533,7 @@ class S:
         for p, m in _prime_factors(n2).items() if n2 > 1 else []:
             root *= p ** (m // 2)
             if m % 2:
-                key.add(int(p))
+                key.add(int(p))        # (a composite p is tolerated here: it usually disappears under log; the VC refuses it otherwise)
         coef = coef * QQ(root, den)
         return S(ctx, {(e / 2, frozenset(key), frozenset()): coef})
 
